@@ -71,7 +71,8 @@ impl CountingNonceGenerator {
     fn generate<'a>(&mut self, nonce: &'a mut [u8]) -> (r: &'a [u8])
         requires old(nonce)@.len() >= 2, old(self).nonce_size <= old(nonce)@.len(),
         ensures final(self).nonce_size == old(self).nonce_size,
-            //#C12 C03
+            //#C12 C03 C05
+            // (the counter is what binds a chunk to its position in the stream: C05's reorder/duplicate detection rests on it)
             final(self).count == add1(old(self).count),
             //#C12 C03
             final(nonce)@ == be_bytes(old(self).count as nat, 2) + old(nonce)@.skip(2),
